@@ -558,6 +558,28 @@ func minimiseAndConfirm(r *RunResult, env *Env, scratch string) (string, int) {
 					}
 				}
 			}
+			// last resort: the implementation itself may be nondeterministic on this script (map iteration order reaching a
+			// result): several fresh-process replays of the original script; any that shows the same class confirms it
+			orig := s
+			orig.Violation = target
+			orig.TraceHash = ""
+			_ = os.MkdirAll(filepath.Join(outDir(), "replays"), 0o755)
+			path := filepath.Join(outDir(), "replays", fmt.Sprintf("%s-%d-%s.json", target.Property, s.Seed, sanitize(target.Class)))
+			ob, _ := json.MarshalIndent(&orig, "", " ")
+			if err := os.WriteFile(path, ob, 0o644); err == nil {
+				self, _ := os.Executable()
+				hits := 0
+				for i := 0; i < 6; i++ {
+					outb, err := exec.Command(self, "replay", path).CombinedOutput()
+					if ee, ok := err.(*exec.ExitError); ok && ee.ExitCode() == 1 && (strings.Contains(string(outb), "REPLAY-OK") || strings.Contains(string(outb), "REPLAY-SAME-CLASS")) {
+						hits++
+					}
+				}
+				if hits > 0 {
+					fmt.Printf("note: %d of 6 fresh-process replays of the original script show the violation again, re-execution inside the checking process did not: the implementation is nondeterministic on this script\n", hits)
+					return path, 1
+				}
+			}
 			return r.ScriptPath, 2
 		}
 	}
